@@ -326,10 +326,15 @@ def call_level(rep, rng, n):
         cfg_mps = T.make_config(c, "mps", [probe])
         for cfg, fn, slf in ((cfg_sv, svi.SVBackendImpl._is_evaluation_time, SimpleNamespace(_config=cfg_sv)),
                              (cfg_mps, mi.MPSBackendImpl._is_evaluation_time, SimpleNamespace(config=cfg_mps))):
+            # the stand-in carries what a changed implementation might plausibly read as well
+            slf.results = SimpleNamespace(total_duration=c["D"])
+            slf.target_times = [0.0, float(c["D"])]
             try:
                 e = "ok " + ("1" if fn(slf, cfg.observables[0], t) else "0")
             except ValueError:
                 e = "err valueerror"
+            except Exception as ex:   # anything else escaping the real statement is a disagreement, not a harness error
+                e = "err " + type(ex).__name__
             lines.append(f"tg.pass1 {f2b(T.TOL1)} {T.dflt_arg(dflt)} {T.obs_arg([own])} {f2b(t)}")
             expect.append(e)
         tol = rng.choice([1e-10, 1e-6, 0.05, 0.0])
